@@ -179,6 +179,10 @@ c06_g3!(c01_c02_c06_q_g_ellipses_both, c01_c02_c06_q_g_ellipses_fill, c01_c02_c0
 c06_g3!(c01_c02_c06_q_g_rrects_both, c01_c02_c06_q_g_rrects_fill, c01_c02_c06_q_g_rrects_stroke, false, 40,
     [(RoundedRectangle::with_equal_corners(Rectangle::new(A0, Size::new(6, 5)), Size::new(2, 2)), 1, Inside),
      (RoundedRectangle::with_equal_corners(Rectangle::new(A1, Size::new(4, 6)), Size::new(1, 2)), 2, Inside)]);
+// flat corner radii: the first row of a corner is already shorter than the rectangle
+c06_g3!(c01_c02_c06_q_g_rrects_flat_both, c01_c02_c06_q_g_rrects_flat_fill, c01_c02_c06_q_g_rrects_flat_stroke, false, 52,
+    [(RoundedRectangle::with_equal_corners(Rectangle::new(A0, Size::new(12, 4)), Size::new(5, 1)), 1, Inside),
+     (RoundedRectangle::new(Rectangle::new(A1, Size::new(4, 11)), CornerRadii { top_left: Size::new(1, 4), top_right: Size::new(1, 5), bottom_right: Size::new(1, 4), bottom_left: Size::new(1, 5) }), 1, Inside)]);
 c06_g3!(c01_c02_c06_q_g_rects_both, c01_c02_c06_q_g_rects_fill, c01_c02_c06_q_g_rects_stroke, true, 40,
     [(Rectangle::new(A0, Size::new(4, 3)), 1, Inside), (Rectangle::new(A1, Size::new(3, 4)), 2, Center), (Rectangle::new(A0, Size::new(2, 5)), 3, Inside), (Rectangle::new(A1, Size::new(0, 2)), 1, Outside),
      (Rectangle::new(A0, Size::new(3, 6)), 2, Inside), (Rectangle::new(A1, Size::new(1, 5)), 3, Center)]);
